@@ -19,8 +19,9 @@ MUST_OBSERVE = ["relations_checked", "rel_setter", "rel_permutation", "rel_zero_
                 "rel_mirror", "rel_sign_cross", "rel_sign_head_tail", "rel_reference", "reference_rows", "switch_inside_range",
                 "rel_differs_after_switch", "sign_drop_rows_judged"]
 ASSUMPTIONS = ["permutation is only required when all until-distances are distinct (ties have no defined order)",
-               "reference comparison tolerance 0.05 ft + 0.5 % of the windage: covers the first-order discretisation error and a "
-               "wind switch taking effect up to one step late; a wrong segment is off by feet"]
+               "reference comparison tolerance: 3 x the change seen when the solver's step is halved (its own first-order error) + "
+               "0.02 ft + 0.2 % of the windage (reference error, a wind switch taking effect up to one step late); a wrong segment "
+               "is off by feet"]
 
 
 def budget(tier):
@@ -234,19 +235,31 @@ def check_case(ctx, case):
             ref = refs.solve(spec, xs, shot.atmo.get_density_factor_and_mach_for_altitude, tc.drag_by_mach, alt0, h=0.2)
         cr = dict(case, relation="reference")
         ctx.case(cr, nontrivial=inside)
+        # the solver's own first-order error, measured: the same shot at half the step
+        with monitors.quiet():
+            try:
+                half = {row_tuple(r)[0]: row_tuple(r) for r in build.calculator({"max_calc_step_size_feet": 0.25}).fire(
+                    build.shot(spec), Distance.Foot(r_ft), Distance.Foot(step))}
+            except pb.RangeError:
+                half = {}
         for r in base:
             st = ref.at.get(r[0] / 12.0)
             if st is None:
                 continue
             ctx.count("reference_rows")
             z_ref, z = st[3], r[3] / 12.0
-            ctx.max("reference_windage_err_ft", abs(z - z_ref))
-            if not abs(z - z_ref) <= 0.05 + 0.005 * abs(z_ref):
+            hr = half.get(r[0])
+            if hr is None:
+                continue
+            d_z, d_t = abs(z - hr[3] / 12.0), abs(r[1] - hr[1])
+            ctx.max("reference_windage_err_over_tol", abs(z - z_ref) / (0.02 + 0.002 * abs(z_ref) + 3 * d_z))
+            if not abs(z - z_ref) <= 0.02 + 0.002 * abs(z_ref) + 3 * d_z:
                 ctx.violation("reference.windage", f"windage at {r[0] / 12.0:.1f} ft is {z:.4f} ft, point-mass reference with the winds applied by "
                                                    f"segment in order of distance gives {z_ref:.4f} ft", cr, distance_ft=r[0] / 12.0)
                 break
             t_ref = st[0]
-            if not abs(r[1] - t_ref) <= 2e-3 * t_ref + 1e-5:
+            ctx.max("reference_time_err_over_tol", abs(r[1] - t_ref) / (2e-4 * t_ref + 1e-5 + 3 * d_t))
+            if not abs(r[1] - t_ref) <= 2e-4 * t_ref + 1e-5 + 3 * d_t:
                 ctx.violation("reference.time", f"time at {r[0] / 12.0:.1f} ft is {r[1]!r} s, reference {t_ref!r} s", cr)
                 break
     monitors.reset_all()
